@@ -10,7 +10,7 @@ from mc.ref import tbl
 ID = "C18"
 LEVEL = "exploration"
 LEVEL_TEXT = ("Complete enumeration of tables = every subset of size 1-4 of the entry texts {a,b,ab,ba,aa,abc} x every assignment of 4 "
-              "code styles (1-byte, 2-byte, 2-byte sharing its first byte with a 1-byte code, 2-byte starting with 00), plus duplicate-code tables and tables with a bare '[' entry, x every string of length "
+              "code styles (1-byte, 2-byte, 2-byte sharing its first byte with a 1-byte code, 2-byte starting with 00), plus duplicate-code tables, tables with a bare '[' entry and tables whose entry texts begin/end with blanks, x every string of length "
               "<=4 (thorough <=5) over {a,b,c,z,[0x41],[0x7F],[}, each pair through the real Table.to_bytes/to_text and compared with an "
               "independent longest-match tokenizer; a covering subset again through `.table` + `.text` programs in 7 scoping contexts "
               "with a label after the text. Five unit tests use one table and four strings.")
@@ -23,7 +23,7 @@ RULE = ("case = one table (codec family: all strings) or one (table, scoping con
 ASSUMPTIONS = ["reference tokenizer mc/ref/tbl.py", "table files written as HEX=text lines"]
 
 TEXTS = ["a", "b", "ab", "ba", "aa", "abc"]
-ALPH = ["a", "b", "c", "z", "[0x41]", "[0x7F]", "["]
+ALPH = ["a", "b", "c", "z", "[0x41]", "[0x7F]", "[", " "]
 UTBL = {"a": b"\x61", "b": b"\x62", "c": b"\x63"}
 ORG = 0x018000
 
@@ -49,6 +49,9 @@ def all_tables():
     # duplicate codes (flagged non-unique: encoding is still defined, round trip is not claimed)
     for subset in itertools.combinations(range(len(TEXTS)), 2):
         out.append({TEXTS[subset[0]]: code_for(subset[0], 4), TEXTS[subset[1]]: code_for(subset[1], 4)})
+    # entry texts that begin or end with a blank, or are a single blank (the text is everything after '=')
+    for extra in ({" a": b"\xD1"}, {" ": b"\x20", " a": b"\xD1"}, {"a ": b"\xD2"}, {"  ": b"\xD3", "a": b"\x10"}, {" a": b"\xD1", "a": b"\x10", "b": b"\x11"}):
+        out.append(dict(extra))
     # tables with a bare '[' entry: the [0xNN] escape still means a raw byte
     for k in (0, 1, 2, 3):
         for subset in itertools.combinations(range(len(TEXTS)), k):
@@ -69,8 +72,8 @@ def tables():
     return _TABLES
 
 
-def strings(maxlen, bracket=True):
-    alph = ALPH if bracket else ALPH[:-1]
+def strings(maxlen, bracket=True, blank=False):
+    alph = [x for x in ALPH if (bracket or x != "[") and (blank or x != " ")]
     yield ""
     for n in range(1, maxlen + 1):
         for tup in itertools.product(alph, repeat=n):
@@ -92,6 +95,7 @@ def cases(tier, seed):
     for i in range(seed % 61, n, 61):
         for c in CONTEXTS:
             yield ("prog", i, c)
+    yield ("quotes",)
 
 
 def describe(case, res):
@@ -119,7 +123,7 @@ def run_codec(ti, maxlen):
     evals = nt = rts = 0
     example = None
     # the lone '[' symbol is part of the string alphabet for tables that have a '[' entry and for every 16th other table
-    for s in strings(maxlen, bracket=("[" in entries or ti % 16 == 0)):
+    for s in strings(maxlen, bracket=("[" in entries or ti % 16 == 0), blank=any(" " in k for k in entries) or ti % 16 == 1):
         exp, matched, esc = tbl.encode(entries, s)
         evals += 1
         if ov or esc or "z" in s or "c" in s:
@@ -171,6 +175,27 @@ def program(ctx, s):
     return f"*=0x{ORG:06x}\n.table 'u.tbl'\n.scope ns {{\n.table 't.tbl'\n{txt}inner:\n}}\n{txt}after:\n.dw 0xEEDD\n", ["t", "u"]
 
 
+QUOTE_TABLE = {"a": b"\x10", "'": b"\x27", "\\": b"\x5C", "b": b"\x11"}
+
+
+def run_quotes():
+    """.text strings containing the escaped quote (backslash + quote stay in the text, both have table entries here)."""
+    impl.write_files({"q.tbl": tbl.table_file(QUOTE_TABLE)})
+    ref = refbus.lorom()
+    viol = []
+    evals = 0
+    for n in range(1, 4):
+        for tup in itertools.product(["a", "b", "\\'", "z"], repeat=n):
+            s_ = "".join(tup)
+            src = f"*=0x{ORG:06x}\n.table 'q.tbl'\n.text '{s_}'\nafter:\n.dw 0xEEDD\n"
+            exp = tbl.encode(QUOTE_TABLE, s_)[0]
+            out = impl.assemble(src, rom="low_rom")
+            evals += 1
+            if not out.accepted or out.blocks != [(ref.phys(ORG), exp + b"\xdd\xee")] or dict(out.labels).get("after") != ORG + len(exp):
+                viol.append({"key": "text:wrong-bytes:escaped-quote", "msg": f"expected {exp.hex()}+ddee got {out.brief()} :: {src!r}"})
+    return {"evals": evals, "nt_count": evals, "outcome": "prog-quotes-ok" if not viol else "PROG-QUOTES-WRONG", "violations": viol[:6]}
+
+
 def run_prog(ti, ctx):
     entries = tables()[ti]
     files = {"t.tbl": tbl.table_file(entries), "u.tbl": tbl.table_file(UTBL)}
@@ -206,6 +231,8 @@ def run_prog(ti, ctx):
 
 
 def run_case(case):
+    if case[0] == "quotes":
+        return run_quotes()
     if case[0] == "codec":
         return run_codec(case[1], case[2])
     return run_prog(case[1], case[2])
